@@ -415,3 +415,43 @@ class SplitMix64:
 
     def choice(self, xs):
         return xs[self.below(len(xs))]
+
+
+# ----------------------------------------------------------------------------
+# schedule gates (C14): the real CLI built with pseudo-random, seed-driven delays at three points of parse.go
+
+GATE_ANCHORS = [
+    ("func (p *Pipeline) parseModule(importPath string, requestedLocation *source.Location) {\n", "after", '\tverifGate("parse", importPath)\n'),
+    ("\ttokenizer := lexer.New(filePath, content, p.ctx.Diagnostics)\n", "before", '\tverifGate("lex", importPath)\n'),
+    ("\tastModule := parser.Parse(tokens, filePath, p.ctx.Diagnostics)\n", "before", '\tverifGate("parse-body", importPath)\n'),
+    ("\tvar imports []importInfo\n\tif astModule != nil {\n", "before", '\tverifGate("deps", importPath)\n'),
+]
+
+
+def build_ferret_gated():
+    """returns (ferret path, libs, gated?) — the CLI built from /repo's working tree with the gates of harness/gate_pipeline.go
+    spliced into a COPY of the current parse.go through -overlay; falls back to the plain binary when an anchor is missing."""
+    ferret, libs = build_ferret()
+    sc = scratch()
+    out = os.path.join(sc, "ferret_gated")
+    if os.path.exists(out):
+        return out, libs, True
+    src = os.path.join(REPO, "internal", "pipeline", "parse.go")
+    try:
+        text = open(src).read()
+    except OSError:
+        return ferret, libs, False
+    for anchor, where, ins in GATE_ANCHORS:
+        if text.count(anchor) != 1:
+            log("gate anchor missing in parse.go: %r — falling back to the ungated compiler" % anchor.strip())
+            return ferret, libs, False
+        text = text.replace(anchor, anchor + ins if where == "after" else ins + anchor)
+    gated = os.path.join(sc, "parse_gated.go")
+    open(gated, "w").write(text)
+    ov = os.path.join(sc, "overlay_gate.json")
+    json.dump({"Replace": {src: gated, os.path.join(REPO, "internal", "pipeline", "zz_verif_gate.go"): os.path.join(VERIF, "harness", "gate_pipeline.go")}}, open(ov, "w"))
+    p = run(["go", "build", "-tags", "verif", "-overlay", ov, "-o", out, "."], cwd=REPO, env=go_env())
+    if p.returncode != 0:
+        log("gated build failed, falling back: " + p.stderr[-800:])
+        return ferret, libs, False
+    return out, libs, True
